@@ -183,6 +183,10 @@ def run(ctx, crate):
                                     expected="every element of the search has wrapper kind %s" % acc_kind, found=sorted(kinds),
                                     example="a file-level (free) function" if "SourceUnitPart" in kinds else None))
                                 continue
+            # G.built: the receiver is a value that was just built as the good variant (`Some(x).unwrap()` after normalisation of `a.or(b)`, `if a.is_some() { a } ..`)
+            if how is None and kind.startswith(("Option::", "Result::")) and recv[0] == "agg" and recv[1] == "adt" \
+                    and recv[2].endswith("Option::Some" if kind.startswith("Option") else "Result::Ok"):
+                how = "G.built: the receiver is %s(..) by construction" % recv[2].rsplit("::", 1)[-1]
             # J
             if how is None:
                 how = justify(b, kind, recv_s, s, recv)
